@@ -507,7 +507,17 @@ Verdict judge(const Plan &plan, const sim::Shm *shm, const ChildExit &ex, const 
             why << " function '" << clip(ec.function, 40) << "'";
         if (ec.category != xcat)
             why << " category '" << clip(ec.category, 40) << "'";
-        if ((!xfile && !ec.file_null) || (!xfunc && !ec.func_null))
+        // a null source location stays null (and a non-null one non-null) on the way to the handlers: Qt's own
+        // formatter prints "unknown" for a null pointer and nothing for an empty string
+        if (ec.file_null != (xfile == nullptr))
+            why << " file pointer is " << (ec.file_null ? "null" : "not null (empty string)") << " at the handler, the caller passed "
+                << (xfile ? "a string" : "null");
+        if (ec.func_null != (xfunc == nullptr))
+            why << " function pointer is " << (ec.func_null ? "null" : "not null (empty string)") << " at the handler, the caller passed "
+                << (xfunc ? "a string" : "null");
+        if (ec.cat_null)
+            why << " category pointer is null at the handler";
+        if (!xfile || !xfunc)
             null_normalised++;
         if (ec.thread_ok != 1)
             why << " thread id is not the calling thread's";
@@ -547,7 +557,7 @@ Verdict judge(const Plan &plan, const sim::Shm *shm, const ChildExit &ex, const 
         if (!why.str().empty())
             fail(v, "content", "message " + clip(c.text, 40) + " changed on its way into the pipeline:" + why.str());
     }
-    v.probes["null_location_normalised"] = null_normalised;
+    v.probes["null_location_messages_judged"] = null_normalised;
 
     // ---- model over the observed serialisation order ---------------------------------
     Model model;
